@@ -19,7 +19,7 @@ import (
 )
 
 var rec = ev.For("C09", "exploration",
-	"sequential: generated histories of WriteMulti/Snapshot/ClearSnapshot/DeleteRange/Delete/Values/Type/Keys on one tsm1.Cache with a small limit; non-trivial = the snapshot holds a (key,ts) that the hot store then overwrites AND a write is rejected by the limit AND a type conflict rejects one key of a map; "+
+	"sequential: generated histories of WriteMulti/Snapshot/ClearSnapshot/DeleteRange/Delete/Values/Type/Keys on one tsm1.Cache with a small limit; non-trivial = the snapshot holds a (key,ts) that the hot store then overwrites AND a write is rejected by the limit; "+
 		"concurrent: generated per-goroutine op lists run on real goroutines under -race; non-trivial = >=2 operations on the same key whose recorded call/return intervals overlap, one of them a DeleteRange; distinct by canonical rendering of the op list (plus, for concurrent, the set of overlapping pairs)")
 
 // value types (the cache's own numbering is private; this is the harness' numbering)
